@@ -1,5 +1,373 @@
 /-
-  Props/C12.lean — property theorems for C12 (stub; to be filled in).
+  Props/C12.lean — C12: Partial / AllFieldsRequired / Extend / Omit / Pick keep exact field sets
+  and constraints.
+
+  `deriveClass` (Sem/Derive.lean) mirrors structures_reuse.py and `Structure.omit/pick`;
+  `specHasField` / `specRequires` (Spec/FieldSet.lean) are the documented outcome.  All theorems
+  hold for every source class (any hierarchy behind it), every operator, every list of names, every
+  world that contains `Structure`, and — by induction on the operator list — compositions of any
+  length.  Where the code today violates the statement the theorem proved is the `_partial` one
+  with an explicit exclusion and a kernel-checked counterexample (= known finding).
 -/
+import TypedpyModel.Lemmas.Derive
+import TypedpyModel.Props.C14
 namespace Typedpy.C12
+open Typedpy
+
+/-- the class an operator returns, in terms of its source -/
+theorem derive_shape {O : Oracles} {w : World} (hS : HasStructure w) {c d : ClassDef} {nm : String}
+    {op : DeriveOp} (h : deriveClass O w c nm op = .ok d) :
+    d.allFields = updateAll [] (derivedFields c op) ∧ d.mro = [nm, "Structure"] ∧ d.name = nm
+    ∧ d.required = dedupStr ((derivedRequired c op).filter fun n =>
+          !((derivedFields c op).any fun p => p.1 == n && p.2.hasDefault))
+    ∧ d.ignoreNone = c.ownIgnoreNone.getD false ∧ d.bases = ["Structure"] := by
+  unfold deriveClass at h
+  rcases bindE_eq_ok h with ⟨src, hsrc, hd⟩
+  rcases defineClass_ok hd with ⟨_, rfl⟩
+  rw [deriveSrc_ok hsrc]
+  exact build_derived hS c nm _ _
+
+/-- the retained Field objects, exactly and in order -/
+theorem derive_allFields {O : Oracles} {w : World} (hS : HasStructure w) {c d : ClassDef} {nm : String}
+    {op : DeriveOp} (hk : KeysNodup c.allFields) (h : deriveClass O w c nm op = .ok d) :
+    d.allFields = derivedFields c op := by
+  rw [(derive_shape hS h).1, updateAll_nodup_eq _ [] (by simpa using derivedFields_keysNodup hk op)]
+  rfl
+
+theorem specHasField_eq (op : DeriveOp) (fs : List String) (n : String) :
+    specHasField op fs n = (fs.contains n && keeps op n) := by
+  cases op <;> simp [specHasField, keeps]
+
+/-- C12 (field set): the derived class has exactly the documented field names. -/
+theorem derive_fields {O : Oracles} {w : World} (hS : HasStructure w) {c d : ClassDef} {nm : String}
+    {op : DeriveOp} (hk : KeysNodup c.allFields) (h : deriveClass O w c nm op = .ok d) (n : String) :
+    n ∈ d.fieldNames ↔ specHasField op c.fieldNames n = true := by
+  rw [ClassDef.fieldNames, ← lookup_isSome_iff, derive_allFields hS hk h, lookup_derivedFields,
+    specHasField_eq]
+  cases hkp : keeps op n
+  · simp
+  · simp only [if_true, Bool.and_true, ClassDef.fieldNames, List.contains_eq_mem, decide_eq_true_eq]
+    exact lookup_isSome_iff n c.allFields
+
+/-- C12 (constraints and defaults): every retained field is the source's Field object —
+    identical declaration and default — and an omitted / unpicked name is absent. -/
+theorem derive_field_same {O : Oracles} {w : World} (hS : HasStructure w) {c d : ClassDef} {nm : String}
+    {op : DeriveOp} (hk : KeysNodup c.allFields) (h : deriveClass O w c nm op = .ok d) (n : String) :
+    lookup n d.allFields = if keeps op n then lookup n c.allFields else none := by
+  rw [derive_allFields hS hk h, lookup_derivedFields]
+
+/-- hence the same accept / reject / normal form for every value, and the same default -/
+theorem derive_field_behaviour (O : Oracles) {w : World} (hS : HasStructure w) {c d : ClassDef}
+    {nm : String} {op : DeriveOp} (hk : KeysNodup c.allFields) (h : deriveClass O w c nm op = .ok d)
+    {n : String} (hn : n ∈ d.fieldNames) :
+    (∀ v, C14.fieldValidate O d n v = C14.fieldValidate O c n v)
+    ∧ C14.fieldDefault d n = C14.fieldDefault c n := by
+  apply C14.same_field_same_behaviour
+  rw [derive_field_same hS hk h]
+  have := (derive_fields hS hk h n).mp hn
+  rw [specHasField_eq] at this
+  simp [(Bool.and_eq_true _ _ |>.mp this).2]
+
+/-- no field required in the class has a default (true of every class typedpy defines unless an
+    inherited field with a default is listed in `_required` by a subclass) -/
+def ReqNoDefault (c : ClassDef) : Prop := ∀ n ∈ c.required, memberHasDefault c.allFields n = false
+
+theorem mem_filter_noDefault {l : List (String × Member)} (hk : KeysNodup l) (n : String) :
+    n ∈ (l.filter fun p => !p.2.hasDefault).map (·.1) ↔
+      (n ∈ l.map (·.1) ∧ memberHasDefault l n = false) := by
+  induction l with
+  | nil => simp
+  | cons p ps ih =>
+    obtain ⟨k, m⟩ := p
+    have hnd : k ∉ ps.map (·.1) ∧ (ps.map (·.1)).Nodup := List.nodup_cons.mp hk
+    have ih' := ih hnd.2
+    by_cases hnk : n = k
+    · subst hnk
+      have hps : n ∉ (ps.filter fun p => !p.2.hasDefault).map (·.1) := by
+        intro hm; exact hnd.1 (ih'.mp hm).1
+      cases hd : m.hasDefault
+      · simp [List.filter, hd, memberHasDefault, lookup]
+      · simp only [List.filter, hd, Bool.not_true, memberHasDefault, lookup, beq_self_eq_true, if_true]
+        constructor
+        · intro hm; exact absurd hm hps
+        · intro hm; cases hm.2
+    · have hb : (n == k) = false := by simpa using hnk
+      have hm' : memberHasDefault ((k, m) :: ps) n = memberHasDefault ps n := by
+        simp [memberHasDefault, lookup, hb]
+      rw [hm']
+      cases hd : m.hasDefault
+      · simp only [List.filter, hd, Bool.not_false, List.map_cons, List.mem_cons, hnk, false_or]
+        exact ih'
+      · simp only [List.filter, hd, Bool.not_true, List.map_cons, List.mem_cons, hnk, false_or]
+        exact ih'
+
+theorem memberHasDefault_derived (c : ClassDef) (op : DeriveOp) (n : String) :
+    memberHasDefault (derivedFields c op) n = (keeps op n && memberHasDefault c.allFields n) := by
+  simp only [memberHasDefault, lookup_derivedFields]
+  cases keeps op n <;> simp
+
+/-- C12 (required set): exactly the documented one — for Extend / Omit / Pick provided the source
+    does not require a field that has a default (otherwise the operator drops it: finding). -/
+theorem derive_required_partial {O : Oracles} {w : World} (hS : HasStructure w) {c d : ClassDef}
+    {nm : String} {op : DeriveOp} (hk : KeysNodup c.allFields) (hr : ReqNoDefault c)
+    (h : deriveClass O w c nm op = .ok d) (n : String) :
+    n ∈ d.required ↔ specRequires op c n = true := by
+  rw [(derive_shape hS h).2.2.2.1, mem_dedupStr, List.mem_filter,
+    any_hasDefault_eq (derivedFields_keysNodup hk op), memberHasDefault_derived]
+  cases op with
+  | partialOf => simp [derivedRequired, specRequires]
+  | allRequired =>
+    simp only [derivedRequired, specRequires, keeps, Bool.true_and, mem_filter_noDefault hk]
+    simp only [ClassDef.fieldNames, List.contains_eq_mem, Bool.and_eq_true, decide_eq_true_eq,
+      Bool.not_eq_true']
+    constructor
+    · intro hx; exact hx.1
+    · intro hx; exact ⟨hx, hx.2⟩
+  | extend =>
+    simp only [derivedRequired, specRequires, keeps, Bool.true_and, List.contains_eq_mem,
+      decide_eq_true_eq, Bool.not_eq_true']
+    exact ⟨fun hx => hx.1, fun hx => ⟨hx, hr n hx⟩⟩
+  | «omit» names =>
+    simp only [derivedRequired, specRequires, keeps, List.mem_filter, Bool.and_eq_true,
+      List.contains_eq_mem, decide_eq_true_eq, Bool.not_eq_true']
+    constructor
+    · intro hx; exact hx.1
+    · intro hx; exact ⟨hx, by rw [hr n hx.1]; simp⟩
+  | pick names =>
+    simp only [derivedRequired, specRequires, keeps, List.mem_filter, Bool.and_eq_true,
+      List.contains_eq_mem, decide_eq_true_eq, Bool.not_eq_true']
+    constructor
+    · intro hx; exact hx.1
+    · intro hx; exact ⟨hx, by rw [hr n hx.1]; simp⟩
+
+/-- the full required-set statement (no exclusion): false of the code, see `extend_drops_required` -/
+def derive_required_statement : Prop :=
+  ∀ (O : Oracles) (w : World) (c d : ClassDef) (nm : String) (op : DeriveOp), HasStructure w →
+    KeysNodup c.allFields → deriveClass O w c nm op = .ok d → ∀ n, n ∈ d.required ↔ specRequires op c n = true
+
+/-- C12: the derived class is a Structure class and not a subclass of its source. -/
+theorem derive_not_subclass {O : Oracles} {w : World} (hS : HasStructure w) {c d : ClassDef}
+    {nm : String} {op : DeriveOp} (h : deriveClass O w c nm op = .ok d)
+    (hne : c.name ≠ nm) (hst : c.name ≠ "Structure") :
+    c.name ∉ d.mro ∧ "Structure" ∈ d.mro := by
+  rw [(derive_shape hS h).2.1]
+  simp [hne, hst]
+
+/-- C12: naming a non-existent field raises TypeError. -/
+theorem derive_unknown_name_TypeError (O : Oracles) (w : World) (c : ClassDef) (nm : String)
+    (names : List String) (k : String) (hk : k ∈ names) (hn : k ∉ c.fieldNames) :
+    deriveClass O w c nm (.omit names) = .error .typeErr
+    ∧ deriveClass O w c nm (.pick names) = .error .typeErr := by
+  have : names.all (fun k => c.fieldNames.contains k) = false := by
+    apply List.all_eq_false.mpr
+    exact ⟨k, hk, by simpa using hn⟩
+  simp only [deriveClass, deriveSrc, this, Bool.false_eq_true, if_false, bindE_error, and_self]
+
+/-- C12 (purity): applying an operator — successfully or not — leaves every existing class
+    object, the source included, exactly as it was. -/
+theorem derive_pure (O : Oracles) (w : World) (s : Step) (n : String) (c : ClassDef)
+    (h : w.find n = some c) : (stepWorld O w s).find n = some c := by
+  unfold stepWorld
+  cases stepClass O w s with
+  | ok d => exact find_add_of_some h
+  | error e => exact h
+
+/-- C12 (class-level None handling): the derived class ignores None exactly when the source does,
+    provided the source's `_ignore_none` is its own attribute (or unset). -/
+theorem derive_ignore_none_partial {O : Oracles} {w : World} (hS : HasStructure w) {c d : ClassDef}
+    {nm : String} {op : DeriveOp} (h : deriveClass O w c nm op = .ok d)
+    (hown : c.ownIgnoreNone.getD false = c.ignoreNone) : d.ignoreNone = c.ignoreNone := by
+  rw [(derive_shape hS h).2.2.2.2.1, hown]
+
+def derive_ignore_none_statement : Prop :=
+  ∀ (O : Oracles) (w : World) (c d : ClassDef) (nm : String) (op : DeriveOp), HasStructure w →
+    w.find c.name = some c → deriveClass O w c nm op = .ok d → d.ignoreNone = c.ignoreNone
+
+/-- finding `derive-raises:allRequired:constant`: `getattr(v, "_default")` on a Constant -/
+theorem allRequired_constant_AttributeError (O : Oracles) (w : World) (c : ClassDef) (nm : String)
+    (h : c.allFields.any (fun p => p.2.isConst) = true) :
+    deriveClass O w c nm .allRequired = .error (.other "AttributeError") := by
+  simp [deriveClass, deriveSrc, h]
+
+/-! ### closure under composition (any number of operators) and further extension -/
+
+theorem hasStructure_add {w : World} (hS : HasStructure w) (d : ClassDef) : HasStructure (w.add d) :=
+  find_add_of_some hS
+
+theorem derived_keysNodup {O : Oracles} {w : World} (hS : HasStructure w) {c d : ClassDef}
+    {nm : String} {op : DeriveOp} (h : deriveClass O w c nm op = .ok d) : KeysNodup d.allFields := by
+  rw [(derive_shape hS h).1]; exact updateAll_keysNodup _ [] (by simp [KeysNodup])
+
+/-- every field of the result of a composition is the identical Field object of the original
+    source (induction on the operator list) -/
+theorem deriveMany_field_same (O : Oracles) : ∀ (ops : List (DeriveOp × String)) (w : World)
+    (c : ClassDef) (w' : World) (r : ClassDef), HasStructure w → KeysNodup c.allFields →
+    deriveMany O w c ops = .ok (w', r) →
+    ∀ n m, lookup n r.allFields = some m → lookup n c.allFields = some m
+  | [], w, c, w', r, _, _, h, n, m, hl => by
+    simp only [deriveMany] at h
+    cases h; exact hl
+  | (op, nm) :: rest, w, c, w', r, hS, hk, h, n, m, hl => by
+    simp only [deriveMany] at h
+    rcases bindE_eq_ok h with ⟨d, hd, hrest⟩
+    have := deriveMany_field_same O rest (w.add d) d w' r (hasStructure_add hS d)
+      (derived_keysNodup hS hd) hrest n m hl
+    rw [derive_field_same hS hk hd] at this
+    split at this
+    · exact this
+    · cases this
+
+theorem specHasFieldMany_eq : ∀ (ops : List DeriveOp) (fs : List String) (n : String),
+    specHasFieldMany ops fs n = (fs.contains n && ops.all fun op => keeps op n)
+  | [], fs, n => by simp [specHasFieldMany]
+  | op :: rest, fs, n => by
+    rw [specHasFieldMany, specHasFieldMany_eq rest]
+    have : (fs.filter (specHasField op fs)).contains n = (fs.contains n && keeps op n) := by
+      have h1 : (fs.filter (specHasField op fs)).contains n
+          = (fs.contains n && specHasField op fs n) := by
+        cases h : specHasField op fs n <;> cases h2 : fs.contains n <;>
+          simp_all [List.contains_eq_mem, List.mem_filter]
+      rw [h1, specHasField_eq]
+      cases fs.contains n <;> simp
+    rw [this, List.all_cons, Bool.and_assoc]
+
+/-- C12 (composition): the field set after any number of operators is the documented one -/
+theorem deriveMany_fields (O : Oracles) : ∀ (ops : List (DeriveOp × String)) (w : World)
+    (c : ClassDef) (w' : World) (r : ClassDef), HasStructure w → KeysNodup c.allFields →
+    deriveMany O w c ops = .ok (w', r) →
+    ∀ n, n ∈ r.fieldNames ↔ specHasFieldMany (ops.map (·.1)) c.fieldNames n = true
+  | [], w, c, w', r, _, _, h, n => by
+    simp only [deriveMany] at h
+    cases h
+    simp [specHasFieldMany]
+  | (op, nm) :: rest, w, c, w', r, hS, hk, h, n => by
+    simp only [deriveMany] at h
+    rcases bindE_eq_ok h with ⟨d, hd, hrest⟩
+    have ih := deriveMany_fields O rest (w.add d) d w' r (hasStructure_add hS d)
+      (derived_keysNodup hS hd) hrest n
+    rw [ih, List.map_cons, specHasFieldMany_eq, specHasFieldMany_eq, List.all_cons]
+    have hd' := derive_fields hS hk hd n
+    rw [specHasField_eq] at hd'
+    cases hdn : d.fieldNames.contains n
+    · have : ¬ (n ∈ d.fieldNames) := by simpa using hdn
+      have h2 : (c.fieldNames.contains n && keeps op n) = false := by
+        cases hx : (c.fieldNames.contains n && keeps op n)
+        · rfl
+        · exact absurd (hd'.mpr hx) this
+      rw [← Bool.and_assoc, h2]
+    · have : n ∈ d.fieldNames := by simpa using hdn
+      rw [← Bool.and_assoc, hd'.mp this]
+
+/-- the result of a non-empty composition is again a plain Structure class -/
+theorem deriveMany_not_subclass (O : Oracles) : ∀ (ops : List (DeriveOp × String)) (w : World)
+    (c : ClassDef) (w' : World) (r : ClassDef), HasStructure w → ops ≠ [] →
+    deriveMany O w c ops = .ok (w', r) → ∃ nm, r.mro = [nm, "Structure"]
+  | [], _, _, _, _, _, hne, _ => absurd rfl hne
+  | (op, nm) :: rest, w, c, w', r, hS, _, h => by
+    simp only [deriveMany] at h
+    rcases bindE_eq_ok h with ⟨d, hd, hrest⟩
+    cases rest with
+    | nil =>
+      simp only [deriveMany] at hrest
+      cases hrest
+      exact ⟨nm, (derive_shape hS hd).2.1⟩
+    | cons o os =>
+      exact deriveMany_not_subclass O (o :: os) (w.add d) d w' r (hasStructure_add hS d)
+        (by simp) hrest
+
+/-- composition is pure as well: every class that existed before still exists unchanged -/
+theorem deriveMany_pure (O : Oracles) : ∀ (ops : List (DeriveOp × String)) (w : World)
+    (c : ClassDef) (w' : World) (r : ClassDef), deriveMany O w c ops = .ok (w', r) →
+    ∀ n x, w.find n = some x → w'.find n = some x
+  | [], w, c, w', r, h, n, x, hx => by
+    simp only [deriveMany] at h
+    cases h; exact hx
+  | (op, nm) :: rest, w, c, w', r, h, n, x, hx => by
+    simp only [deriveMany] at h
+    rcases bindE_eq_ok h with ⟨d, _, hrest⟩
+    exact deriveMany_pure O rest (w.add d) d w' r hrest n x (find_add_of_some hx)
+
+/-- C12 (further extension): a class that extends a derived class (its only base) keeps, for every
+    name it does not redeclare, the identical Field object of the *original source*. -/
+theorem extended_derived_field_same {O : Oracles} {w : World} (hw : WorldOk w) (hS : HasStructure w)
+    {c d e : ClassDef} {nm : String} {op : DeriveOp} {src : ClassSrc} {n : String}
+    (hk : KeysNodup c.allFields) (hd : deriveClass O w c nm op = .ok d) (hfd : w.find nm = none)
+    (hsrc : src.bases = [nm]) (he : defineClass O (w.add d) src = .ok e)
+    (hfe : (w.add d).find src.name = none)
+    (hn : n ∉ (ownMembers src.entries).map (·.1)) :
+    lookup n e.allFields = if keeps op n then lookup n c.allFields else none := by
+  have hname : d.name = nm := (derive_shape hS hd).2.2.1
+  have hw' : WorldOk (w.add d) := by
+    unfold deriveClass at hd
+    rcases bindE_eq_ok hd with ⟨s, _, hdd⟩
+    have : s.name = nm := by rw [← defineClass_name hdd, hname]
+    exact worldOk_add_define hw hdd (by rw [this]; exact hfd)
+  have hfind : (w.add d).find nm = some d := by
+    rw [← hname]; exact find_add_fresh (by rw [hname]; exact hfd)
+  rw [C14.inherited_field_same hw' he hfe (b := nm) (by rw [hsrc]; simp) hfind
+    (by intro b' hb' hne; rw [hsrc] at hb'; simp at hb'; exact absurd hb' hne) hn]
+  exact derive_field_same hS hk hd n
+
+/-! ### kernel-checked counterexamples (known findings) and non-vacuity -/
+
+def exO : Oracles := { reMatch := fun _ _ => true }
+def W0 : World := initWorld true true
+def intF : SrcEntry := .field (.integer {}) none none
+def strD : SrcEntry := .field (.string none none none) (some (.lit (.str "x"))) none
+
+def getCls (w : World) (n : String) : ClassDef := (w.find n).getD (mixinDef "?")
+
+/-- finding `ignore-none-dropped:inherited`: `_ignore_none` inherited by the source (not in its
+    own `__dict__`) is not copied by `_init_class_dict` -/
+def ignWorld : World :=
+  runSteps exO W0 [.define { name := "Ba", bases := ["Structure"], entries := [("a", intF)], ignoreNone := some true },
+                   .define { name := "Mid", bases := ["Ba"], entries := [("b", intF)] },
+                   .derive .partialOf "Mid" "PMid"]
+
+theorem inherited_ignore_none_dropped :
+    (getCls ignWorld "Mid").ignoreNone = true ∧ (getCls ignWorld "PMid").ignoreNone = false
+    ∧ (getCls ignWorld "PMid").fieldNames = ["a", "b"] ∧ (getCls ignWorld "PMid").required = [] := by
+  decide
+
+/-- finding `derive-raises:allRequired:constant` on a concrete class -/
+def constWorld : World :=
+  runSteps exO W0 [.define { name := "Ba", bases := ["Structure"],
+                             entries := [("a", intF), ("c", .obj (.const (.int 3)))] }]
+
+theorem allRequired_constant_example :
+    isError (deriveClass exO constWorld (getCls constWorld "Ba") "R" .allRequired) = true
+    ∧ isError (deriveClass exO constWorld (getCls constWorld "Ba") "P" .partialOf) = false := by
+  decide
+
+/-- finding `required-set:extend:source-requires-field-with-default`: a subclass may list an
+    inherited field that has a default in `_required`; Extend (and Omit / Pick) drop it again -/
+def reqDefWorld : World :=
+  runSteps exO W0 [.define { name := "A", bases := ["Structure"], entries := [("a", strD)] },
+                   .define { name := "S", bases := ["A"], entries := [("b", intF)], required := some ["a", "b"] },
+                   .derive .extend "S" "ES"]
+
+theorem extend_drops_required :
+    (getCls reqDefWorld "S").required = ["a", "b"] ∧ (getCls reqDefWorld "ES").required = ["b"] := by
+  decide
+
+/-- non-vacuity: operators and a composition on a class with inheritance, a default and
+    `_ignore_none` -/
+def exWorld : World :=
+  runSteps exO W0 [.define { name := "A", bases := ["Structure"], entries := [("a", intF), ("s", strD)],
+                             ignoreNone := some true },
+                   .define { name := "F", bases := ["A"], entries := [("b", intF), ("c", intF)] },
+                   .derive .partialOf "F" "P", .derive .allRequired "F" "R", .derive (.omit ["a", "c"]) "F" "Om",
+                   .derive (.pick ["s", "s"]) "Om" "Pk", .derive (.pick ["nope"]) "F" "Bad",
+                   .define { name := "X", bases := ["P"], entries := [("x", intF)] }]
+
+theorem derive_example :
+    (getCls exWorld "F").fieldNames = ["a", "s", "b", "c"] ∧ (getCls exWorld "F").required = ["a", "b", "c"]
+    ∧ (getCls exWorld "P").fieldNames = ["a", "s", "b", "c"] ∧ (getCls exWorld "P").required = []
+    ∧ (getCls exWorld "R").required = ["a", "b", "c"]
+    ∧ (getCls exWorld "Om").fieldNames = ["s", "b"] ∧ (getCls exWorld "Om").required = ["b"]
+    ∧ (getCls exWorld "Pk").fieldNames = ["s"] ∧ (getCls exWorld "Pk").mro = ["Pk", "Structure"]
+    ∧ (exWorld.find "Bad").isNone = true
+    ∧ (getCls exWorld "X").fieldNames = ["a", "s", "b", "c", "x"] ∧ (getCls exWorld "X").required = ["x"] := by
+  decide
+
 end Typedpy.C12
